@@ -312,6 +312,7 @@ func init() {
 	caddy.RegisterModule(&Take{})
 	caddy.RegisterModule(&Span{})
 	caddy.RegisterModule(&Closer{})
+	caddy.RegisterModule(&SetRepl{})
 	caddy.RegisterModule(&M1{})
 	caddy.RegisterModule(&M2{})
 	caddy.RegisterModule(&M3{})
@@ -728,4 +729,26 @@ func (f *Fallback) Handle(cx *layer4.Connection) error {
 		return s.Handle(cx, nil)
 	}
 	return nil
+}
+
+// SetRepl consumes N bytes from the connection and sets the replacer key Key to Values[d], where d is the decimal
+// digit in the last consumed byte: a per-connection placeholder value, the way {l4.tls.server_name} is one.
+type SetRepl struct {
+	Key    string   `json:"key,omitempty"`
+	N      int      `json:"n,omitempty"`
+	Values []string `json:"values,omitempty"`
+}
+
+func (*SetRepl) CaddyModule() caddy.ModuleInfo {
+	return caddy.ModuleInfo{ID: "layer4.handlers.verif_setrepl", New: func() caddy.Module { return new(SetRepl) }}
+}
+
+func (s *SetRepl) Handle(cx *layer4.Connection, next layer4.Handler) error {
+	buf := make([]byte, s.N)
+	if _, err := io.ReadFull(cx, buf); err != nil {
+		return nil
+	}
+	repl := cx.Context.Value(layer4.ReplacerCtxKey).(*caddy.Replacer)
+	repl.Set(s.Key, s.Values[int(buf[s.N-1]-'0')%len(s.Values)])
+	return next.Handle(cx)
 }
